@@ -112,6 +112,12 @@ pub struct Task<S: WebSocket, T: TimestampProvider> {
     pub rwnd: u32,
     pub datagram_tx: mpsc::Sender<Datagram>,
     pub bnd_request_tx: Option<mpsc::Sender<BindRequest<'static>>>,
+    /// Keepalive `Ping`s that are due. They do not queue behind the data in `tx_msg_tx`:
+    /// on a slow link that backlog may take longer than `keepalive_timeout` to drain, and a
+    /// peer that answers every `Ping` at once would be declared dead.
+    pub ping_tx: mpsc::UnboundedSender<()>,
+    /// See `ping_tx`
+    pub ping_rx: Mutex<mpsc::UnboundedReceiver<()>>,
     /// Interval between keepalive `Ping`s,
     pub keepalive_interval: OptionalDuration,
     /// Maximum allowed delay between sending a `Ping` and receiving a corresponding `Pong`.
@@ -246,9 +252,9 @@ impl<S: WebSocket, T: TimestampProvider> Task<S, T> {
                 warn!("No pong received for {elapsed_since_last_pong:?}");
                 return Err(Error::KeepaliveTimeout);
             }
-            self.tx_msg_tx.send(Message::Ping).map_err(|_| {
-                debug_assert!(false, "`tx_msg_tx` should not be closed (this is a bug)");
-                Error::ChannelClosed("tx_msg_tx")
+            self.ping_tx.send(()).map_err(|_| {
+                debug_assert!(false, "`ping_rx` should not be closed (this is a bug)");
+                Error::ChannelClosed("ping_tx")
             })?;
             last_ping_sent = T::now();
         }
@@ -292,11 +298,17 @@ impl<S: WebSocket, T: TimestampProvider> Task<S, T> {
     ) -> Poll<Result<()>> {
         ready!(self.ws.lock().poll_ready_unpin(cx))?;
         // `ready!`: if we cancel here, the reserved space is not used, but no other side effect
-        let Some(msg) = ready!(tx_msg_rx.poll_recv(cx)) else {
-            // Only happens when `tx_msg_rx` is closed
-            // cannot happen because `Self` contains one sender unless
-            // there is a bug in our code or `tokio` itself.
-            unreachable!("`tx_msg_rx` receiver should not be closed (this is a bug)");
+        // A `Ping` that is due goes first
+        let msg = if let Poll::Ready(Some(())) = self.ping_rx.lock().poll_recv(cx) {
+            Message::Ping
+        } else {
+            let Some(msg) = ready!(tx_msg_rx.poll_recv(cx)) else {
+                // Only happens when `tx_msg_rx` is closed
+                // cannot happen because `Self` contains one sender unless
+                // there is a bug in our code or `tokio` itself.
+                unreachable!("`tx_msg_rx` receiver should not be closed (this is a bug)");
+            };
+            msg
         };
         trace!("message queue backlog: {}", tx_msg_rx.len());
         // After this point, we may not return `Poll::Pending` because we (might) hold data
